@@ -1,5 +1,5 @@
 From Coq Require Import List NArith Bool Lia ZifyBool ZifyNat ZifyN.
-From TT Require Import Lib.BytesL Model.TlsDemux Spec.SniRouting.
+From TT Require Import Lib.BytesL Model.TlsDemux Spec.SniRouting Generated.DemuxFacts.
 Import ListNotations.
 Open Scope N_scope.
 
@@ -273,9 +273,31 @@ Qed.
 Lemma never_h3_on_tcp_proof c alpn sni m :
   select_tcp c alpn sni = Some m -> m_proto m <> H3.
 Proof.
-  unfold select_tcp. destruct sni as [s|]; [|discriminate].
-  destruct (select c alpn s) as [m'|]; [|discriminate].
+  unfold select_tcp, select_tcp_with. destruct sni as [s|]; [|discriminate].
+  destruct (TCP_H3_OFFER_IGNORED && is_nil (if TCP_H3_OFFER_IGNORED then filter not_h3 alpn else alpn) && negb (is_nil alpn)); [discriminate|].
+  destruct (select c (if TCP_H3_OFFER_IGNORED then filter not_h3 alpn else alpn) s) as [m'|]; [|discriminate].
   destruct (m_proto m') eqn:E; intros H; inversion H; subst; congruence.
+Qed.
+
+(* an offer of h3 next to other protocols changes nothing on TCP: the outcome is the one of the offer without it *)
+Lemma tcp_h3_offer_is_ignored_proof c alpn sni :
+  filter not_h3 alpn <> [] ->
+  select_tcp_with true c alpn sni = select_tcp_with true c (filter not_h3 alpn) sni.
+Proof.
+  intros NE. unfold select_tcp_with. destruct sni as [s|]; [|reflexivity]. cbn [andb].
+  assert (F2 : filter not_h3 (filter not_h3 alpn) = filter not_h3 alpn).
+  { clear NE. induction alpn as [|a r IH]; [reflexivity|]. cbn [filter]. destruct (not_h3 a) eqn:E; [|exact IH].
+    cbn [filter]. rewrite E, IH. reflexivity. }
+  rewrite F2.
+  destruct (filter not_h3 alpn) as [|x l] eqn:EF; [contradiction|]. cbn [is_nil andb negb]. reflexivity.
+Qed.
+
+(* ... and a client that offers nothing but h3 is refused *)
+Lemma tcp_only_h3_refused_proof c alpn sni :
+  alpn <> [] -> filter not_h3 alpn = [] -> select_tcp_with true c alpn sni = None.
+Proof.
+  intros NE F. unfold select_tcp_with. destruct sni as [s|]; [|reflexivity]. rewrite F.
+  destruct alpn; [contradiction|]. reflexivity.
 Qed.
 
 Lemma no_sni_refused_proof c alpn : select_tcp c alpn None = None.
